@@ -165,6 +165,13 @@ func init() {
 			if c.Rng.Intn(4) == 0 {
 				pp.Restarts = 1 + c.Rng.Intn(2)
 			}
+			if pp.Restarts > 0 && conc > 1 {
+				// Saves of both levels and of the read routine overlap, one may be slow,
+				// and what they leave is what the next process orders its resend by
+				pp.SlowSaves = true
+				pp.Levels = []int{1, 2}
+				pp.HoldP = 0.5
+			}
 			if c.Case%8 == 3 {
 				pp.Volatile = true
 				c.Count("volatile_session_episodes", 1)
